@@ -21,7 +21,9 @@ META = {
         "cases = (guard entry lists, provider layout, spelling) drawn from a seeded tree generator "
         "(depth<=5; not/and/or/6 comparison ops incl. chains; literals; names on machine/model/"
         "listener as property/method/attribute/coroutine; random library spelling), each run on "
-        "several valuations; plus invalid expressions obtained by mutation. distinct_nontrivial = "
+        "several valuations; plus invalid expressions obtained by mutation. "
+        "decorator guards (@event.cond/unless) on an event of two transitions evaluated on the second, machine and model instantiated through subclasses that override nothing, invalid / unknown entries placed next to valid ones (same list or the other keyword). "
+        "distinct_nontrivial = "
         "distinct (operator skeleton, spelling class) with >=2 operators for which a short-circuit "
         "was actually observed in at least one valuation."
     ),
